@@ -52,7 +52,7 @@ def model_checks(ctx):
     thorough = ctx.tier == "thorough"
     # (a) the code as it is, zone alphabets without -inf: every invariant holds
     mc(ctx, "asis_n3", "AllRasters(3, %s, %s)" % (z5, v5), s12)
-    mc(ctx, "asis_6cells", "FixedValueRasters(6, %s, %s)" % (z5, six), "Sels({NONE, 2}, {<<4, 0-2>>})")
+    mc(ctx, "asis_6cells", "FixedValueRasters(6, %s, %s)" % (z5, six), "Sels({2}, {<<4, 0-2>>})")
     mc(ctx, "asis_ties_any", "FixedValueRasters(4, {1, 4, NAN}, {<<0, 2, NAN, 0-1>>, <<2, 2, 0, PINF>>})",
        "Sels({NONE, 2}, {<<4>>})", ties="any")
     # (b) the code as it is, -inf among the zone cells: TLC finds the counterexample (defect 1 of DESIGN section 8)
@@ -62,7 +62,7 @@ def model_checks(ctx):
     # (c) the repaired variant: holds on everything, every zone_ids list
     mc(ctx, "strip_lists_n2", "AllRasters(2, %s, {0, 2, NAN})" % z6, lists, variant='{"strip"}')
     if thorough:
-        mc(ctx, "asis_n4", "AllRasters(4, %s, {0, 2, NAN, PINF})" % z5, s6)
+        mc(ctx, "asis_n4", "AllRasters(4, %s, {0, 2, NAN})" % z5, s6)
         mc(ctx, "asis_multiset5", "MultisetRasters(5, %s, %s, <<4, 1, 5, 2, 3>>)" % (U.tla_seq(Z5), U.tla_seq(V5)), s6)
         mc(ctx, "strip_n3", "AllRasters(3, %s, %s)" % (z6, v5), s12, variant='{"strip"}')
         mc(ctx, "strip_lists_n3", "AllRasters(3, %s, {0, 2, NAN})" % z6, lists, variant='{"strip"}')
